@@ -120,7 +120,8 @@ func checkC10Pay(r *run, c *H264PayCase) (CaseInfo, error) {
 	var want [][]byte
 	var pendSPS, pendPPS []byte
 	var got [][]byte
-	var f14Dropped [][]byte // pairs the known defect F14 would drop (STAP-A larger than the MTU)
+	var f14Dropped [][]byte  // pairs the known defect F14 would drop (STAP-A larger than the MTU)
+	var retained [][2][]byte // what H264Packet returned, kept as a receiver assembling a frame does (its inputs are never touched again)
 	for ci2, call := range c.Calls {
 		buf := call.buffer()
 		orig := clone(buf)
@@ -198,8 +199,12 @@ func checkC10Pay(r *run, c *H264PayCase) (CaseInfo, error) {
 			if err != nil {
 				return ci, failf("%s: H264Packet rejects the payloader's output: %v", what, err)
 			}
-			if exp := h264rtp.Frame(units, c.AVC); !bytes.Equal(out, exp) {
+			exp := h264rtp.Frame(units, c.AVC)
+			if !bytes.Equal(out, exp) {
 				return ci, failf("%s: H264Packet returned %s, the reference depacketizer %s", what, hx(out), hx(exp))
+			}
+			if len(out) > 0 {
+				retained = append(retained, [2][]byte{out, exp})
 			}
 		}
 		if refDep.Open() {
@@ -208,6 +213,11 @@ func checkC10Pay(r *run, c *H264PayCase) (CaseInfo, error) {
 	}
 	if pendSPS != nil || pendPPS != nil {
 		ci.class("pair-pending-at-end")
+	}
+	for k, pair := range retained {
+		if !bytes.Equal(pair[0], pair[1]) {
+			return ci, failf("output %d of %d returned by H264Packet changed while later packets of the stream were decoded: now %s, was %s", k, len(retained), hx(pair[0]), hx(pair[1]))
+		}
 	}
 	// FU-A trains must carry the unit's NRI/type: implied by byte-exact reassembly below.
 	if !equalUnits(got, want) {
